@@ -70,26 +70,35 @@ let handle (x : sexp) : (string * string) list =
         if merrs <> ierrs' then add "mismatch" (Printf.sprintf "corr:C02/errors model=[%s] impl=[%s]" merrs ierrs')
       end
     end;
-    (* spec on the implementation's own output *)
-    if status = "panic" then add "specfail" "no_panic renderer panicked";
-    if status <> "panic" && not (sbool valid) then add "specfail" "render_valid_json output is not valid JSON";
-    if status <> "panic" && sbool valid && not (sbool env) then add "specfail" "envelope_shape";
-    (* the one-pass completion semantics and the independent type-safety checker, on the implementation's output *)
+    (* Which theorem hypotheses does the plan meet?  Inside plan_wf everything is checked.  A plan that
+       violates exactly one of the two path clauses (separate streams of the harness) is still held to the
+       unconditional clauses of the property -- no panic, valid JSON, envelope, type-safe data -- and a
+       failure there carries a tag naming the clause, so that it is reported under its own finding key. *)
     let wf = root_wf root in
-    if not wf then add "error" "generator produced a plan outside plan_wf";
+    let tag =
+      if wf then ""
+      else if root_wf_upto true false root then " [outside plan_wf: sibling data paths overlap]"
+      else if root_wf_upto false true root then " [outside plan_wf: authorization rule on a field without a data key]"
+      else "" in
+    if (not wf) && tag = "" then add "error" "generator produced a plan outside plan_wf";
+    (* spec on the implementation's own output *)
+    if status = "panic" then add "specfail" ("no_panic renderer panicked" ^ tag);
+    if status <> "panic" && not (sbool valid) then add "specfail" ("render_valid_json output is not valid JSON" ^ tag);
+    if status <> "panic" && sbool valid && not (sbool env) then add "specfail" ("envelope_shape" ^ tag);
+    (* the one-pass completion semantics and the independent type-safety checker, on the implementation's output *)
     let (ctree, cerrs) = complete_root deny root j in
     (match dtree with
      | L [A "some"; dt] when status <> "panic" ->
        let it = json_of dt in
        let expected = match ctree with Some t -> t | None -> JNull in
-       if not (json_eqb it expected) then
+       if wf && not (json_eqb it expected) then
          add "specfail" (Printf.sprintf "complete_eq data differs from the completion semantics: expected %s" (quote_string (string_of_bytes (data_bytes ctree))));
        (match it with
         | JNull -> ()
-        | _ -> if not (conforms_b root j [] it) then add "specfail" "typesafe rendered data does not conform to the plan (kinds / exact keys)");
+        | _ -> if not (conforms_b root j [] it) then add "specfail" ("typesafe rendered data does not conform to the plan (kinds / exact keys)" ^ tag));
        let cerrs' = String.concat " " (List.map show_err cerrs) in
        let ierrs' = String.concat " " (List.map print_sexp ierrs) in
-       if cerrs' <> ierrs' then add "specfail" (Printf.sprintf "errors_eq expected [%s] got [%s]" cerrs' ierrs')
+       if wf && cerrs' <> ierrs' then add "specfail" (Printf.sprintf "errors_eq expected [%s] got [%s]" cerrs' ierrs')
      | _ -> ());
     let nontrivial = (mut <> "" && mut <> "none") && cerrs <> [] in
     if !res = [] then [("ok", if nontrivial then "nt" else "tr")] else List.rev !res
